@@ -337,3 +337,39 @@ def check_C14(tier, seed):
     v.assumptions = ["restart = Store.Close + NewStore + NewDsManager on the same directory, at quiescent points",
                      "job definitions / tokens and security state across restart are checked by the hub-level stage"]
     return v.finish(rule=RULE_REPLAY)
+
+
+# ----------------------------------------------------------------------------
+# C12 (sequential part)
+
+def compact_contents():
+    return [content(1, p=(1, ["e2"])),      # A
+            content(2, p=(1, ["e2"])),      # B: same reference, other properties
+            content(0, d=True),             # deleted, bare
+            content(1, d=True, p=(1, ["e2"])),  # deleted A
+            content(1)]                     # A without the reference
+
+
+def check_C12(tier, seed):
+    v = Verdict("C12", tier, seed)
+    v.wd = verif.workdir("C12")
+    sd = verif.spec_copy(v.wd)
+    binary = verif.build_harness(v.wd)
+    thorough = tier == "thorough"
+    cc = compact_contents()
+    kinds = ("ent", "chg", "look", "rel", "past")
+    cl = classify_c03
+    acts = ("store", "dup", "compact")
+    # (a) values flipping back and forth, references kept across property changes, legacy duplicates at every position
+    datahub_stage(v, sd, binary, "C12_seq", ds=["a"], ent=["e1", "e2"], contents=cc[:4], max_batch=1,
+                  max_steps=5 if thorough else 4, acts=acts, tables="plain", kinds=kinds, limits=(0, 1),
+                  classify=cl(cc[:4]), rotate=True, per_world=150)
+    # (b) bystander dataset, in-batch versions, writes after compaction
+    datahub_stage(v, sd, binary, "C12_deep", ds=["a", "b"], ent=["e1", "e2"], contents=cc, max_batch=2,
+                  max_steps=9 if thorough else 7, acts=acts + ("txn", "tick"), tables="plain,eqlen", kinds=kinds,
+                  limits=(0, 1, 2), sample=True, seed=seed, fan=5 if thorough else 4, classify=cl(cc), rotate=True,
+                  per_world=150, target=40000 if thorough else 4000)
+    v.assumptions = ["legacy duplicate versions are injected the way the repository's compact_test.go does it",
+                     "flush thresholds 1, 2 and the product default rotate over behaviours",
+                     "racing writers and kills between flushes: concurrency/crash stage (hooks)"]
+    return v.finish(rule=RULE_REPLAY)
